@@ -46,9 +46,9 @@ struct Law { double expo, C; };
 Law lawOf(int integ) {
     switch (integ) {        //  exponent   C (>= 10 x the worst ratio seen in calibration, notes/C20.md)
         case 0: return {0.8, 4};        // RungeKuttaMerson   p=4      worst 0.372
-        case 1: return {1.0, 8};        // RungeKutta3        (error per unit step: err/acc flat)  worst 0.706
+        case 1: return {1.0, 9};        // RungeKutta3        (error per unit step: err/acc flat)  worst 0.883 (final-time mode)
         case 2: return {1.0, 10};       // RungeKutta2        (same)   worst 0.956
-        case 3: return {0.8, 13};       // RungeKuttaFeldberg (propagates the 4th order solution)  worst 1.22
+        case 3: return {0.8, 21};       // RungeKuttaFeldberg (propagates the 4th order solution)  worst 2.08 (final-time mode, acc 1e-2)
         case 4: return {2.0 / 3, 6};    // Verlet             p=2      worst 0.518
         case 5: return {0.5, 25};       // ExplicitEuler      p=1      worst 2.16
         case 7: return {0.5, 6};        // SemiExplicitEuler2 p=1      worst 0.577
